@@ -6,6 +6,7 @@ import (
 	"go/token"
 	"go/types"
 	"os"
+	"sort"
 	"strings"
 
 	"golang.org/x/tools/go/ssa"
@@ -125,6 +126,14 @@ type Engine struct {
 	lockEvents                                    int
 	uniq                                          []uniqEntry
 	parGroups                                     int
+	allocSub                                      int
+	forkSites                                     map[string]int
+	rangeConds                                    map[*Term]*Term
+	feasQueries                                   int
+	rangeCache                                    map[*Term]rangeRes
+	live_                                         map[*ssa.Function]*liveInfo
+	copyMerges                                    int
+	siteIDs                                       map[string]int
 }
 
 type observation struct {
@@ -505,6 +514,7 @@ func (e *Engine) run(st *State) (spawned []*State, done bool) {
 		f := st.frames[len(st.frames)-1]
 		in := f.blk.Instrs[f.ip]
 		e.steps++
+		e.allocSub = 0
 		if e.deadline > 0 && e.steps > e.deadline {
 			e.aborted = fmt.Sprintf("step budget %d exhausted", e.deadline)
 			return spawned, true
@@ -512,8 +522,31 @@ func (e *Engine) run(st *State) (spawned []*State, done bool) {
 		if e.trace {
 			fmt.Fprintf(os.Stderr, "[s%d d%d] %s: %s\n", st.id, len(st.frames), f.fn.Name(), in)
 		}
-		if e.steps%200000 == 0 && os.Getenv("GOSMT_PROGRESS") != "" {
+		if e.steps%20000 == 0 && os.Getenv("GOSMT_PROGRESS") != "" {
 			fmt.Fprintf(os.Stderr, "steps=%d live=%d forks=%d merges=%d splits=%d terms=%d obls=%d fn=%s\n", e.steps, len(e.live), e.forks, e.merges, e.splits, e.b.n, len(e.obls), f.fn)
+			hist := map[string]int{}
+			for _, l := range e.live {
+				k := ""
+				for _, fr := range l.frames {
+					k += fmt.Sprintf("%s:%d.%d%v/", fr.fn.Name(), fr.blk.Index, fr.ip, fr.iters)
+				}
+				if l.atJoin {
+					k += " J"
+				}
+				hist[k]++
+			}
+			type kv struct {
+				k string
+				v int
+			}
+			var kvs []kv
+			for k, v := range hist {
+				kvs = append(kvs, kv{k, v})
+			}
+			sort.Slice(kvs, func(i, j int) bool { return kvs[i].v > kvs[j].v })
+			for i := 0; i < len(kvs) && i < 6; i++ {
+				fmt.Fprintf(os.Stderr, "   %5d  %s\n", kvs[i].v, kvs[i].k)
+			}
 		}
 		act, more := e.exec(st, f, in)
 		spawned = append(spawned, more...)
@@ -877,6 +910,12 @@ func (e *Engine) exec(st *State, f *Frame, in ssa.Instruction) (action, []*State
 				e.enter(st, fb)
 			}
 			return e.checkUnwind(st, f)
+		}
+		if e.forkSites != nil {
+			e.forkSites[f.fn.Name()+":"+e.posStr(x.Pos())]++
+			if len(e.forkSites) < 12 && e.forkSites[f.fn.Name()+":"+e.posStr(x.Pos())] == 1 {
+				fmt.Fprintf(os.Stderr, "FORK in %s on %s\n", f.fn.Name(), termStr(c, 6))
+			}
 		}
 		o := e.fork(st)
 		e.addPC(o, b.Not(c))
@@ -1433,4 +1472,33 @@ func describe(v Val) string {
 		return fmt.Sprintf("Array[%d]", len(x.e))
 	}
 	return fmt.Sprintf("%T", v)
+}
+
+func termStr(t *Term, d int) string {
+	switch t.op {
+	case OpConst:
+		return fmt.Sprintf("%d", t.val)
+	case OpVar:
+		return t.name
+	}
+	if d == 0 {
+		return "..."
+	}
+	s := "(" + opName[t.op]
+	if t.op == OpExtract {
+		s = fmt.Sprintf("(extract[%d:%d]", t.p1, t.p2)
+	}
+	if t.op == OpZext {
+		s = "(zext"
+	}
+	if t.op == OpSext {
+		s = "(sext"
+	}
+	if t.op == OpUF {
+		s = "(" + t.name
+	}
+	for _, a := range t.args {
+		s += " " + termStr(a, d-1)
+	}
+	return s + ")"
 }
